@@ -293,7 +293,12 @@ def run_check(args):
         print("CHECKER-ERROR: %s" % c)
     for ob in undecided:
         print("UNDECIDED: %s (%s)" % (ob["name"], ob.get("detail", "")))
+    shown = set()
     for ob, path, reproduced in violations:
+        base = re.sub(r"~\d+$", "", ob["name"])
+        if base in shown:
+            continue          # same clause failing on another path of the same function: one line per clause
+        shown.add(base)
         print("  failed obligation: %s" % ob["name"])
         print("VIOLATION property=%s replay=%s%s" % (prop, path, "" if reproduced else " no-failing-input-found"))
     if crashes:
